@@ -38,7 +38,7 @@ func main() {
 		childMain(os.Args[2])
 		return
 	}
-	Main("C12", checkC12, GenBufferConsts, sysgen.Gen)
+	Main("C12", checkC12, GenBufferConsts, sysgen.Gen, stateGen)
 }
 
 // ---------------------------------------------------------------- what a child does
